@@ -64,7 +64,7 @@ func NewValidatorSet(validators *ConsensusValidators, delegate ...bool) (Validat
 		return ValidatorSet{}, ErrNoValidators()
 	}
 	// calculate the minimum power for a two-thirds majority (2f+1)
-	minPowerFor23Maj := (2*totalPower)/3 + 1
+	minPowerFor23Maj := 2*(totalPower/3) + (2*(totalPower%3))/3 + 1 // = floor(2*totalPower/3)+1 without the doubling that wraps above 2^63
 	var multiPublicKey crypto.MultiPublicKeyI
 	// for validators, create a composite multi-public key out of the public
 	// keys (in curve point format)
